@@ -888,6 +888,16 @@ impl<'a> Visitor for OpVisitor<'a> {
                     out.viol("C13", "state", id, &format!("{}:refused-but-changed", rel), format!("the call returned Err but the value changed: {} ({})", d, tag));
                 }
             }
+            // likewise for assignments the implementation itself refuses although the reference accepts them: whether
+            // refusing is right is not C18's question, that the value left behind is valid is
+            if has("C18") && op0 == "assign" && ok0 && !follow && obs.results.first().map(|r| r["ok"] == json!(false)).unwrap_or(false) {
+                out.count("judged.C18.impl-refusal");
+                for (chk, r2, d) in &generic {
+                    if matches!(*chk, "validate" | "remap" | "accessors") {
+                        out.viol("C18", chk, id, &format!("{}:{}(refused-by-impl)", rel, r2), format!("{} ({})", d, tag));
+                    }
+                }
+            }
             if has("C18") && j18 {
                 for (chk, r2, d) in &generic {
                     if matches!(*chk, "validate" | "remap" | "accessors") || (*chk == "state" && !anyvalid) {
